@@ -55,6 +55,15 @@ def fmt():
 
 
 # ------------------------------------------------------------------ writer side (A2)
+def _item_fields_of_list(ctx, lst: str):
+    """declared fields (dtype, default) of the item class of a list class"""
+    M = ctx.M
+    ic = M.item_class_of_list(lst)
+    if ic is None:
+        raise AnalysisError(f"item class of {lst} not resolved")
+    return M.item_fields(ic)
+
+
 def writer_table(ctx, slot: str):
     """key -> (expression over declared columns, type) emitted by <List>.to_yaml; None if undecided."""
     M = ctx.M
@@ -531,6 +540,15 @@ def rule_r3(ctx) -> List[R.Inst]:
             want = allowed.get(k)
             if want and set(want.split("|")) <= {INT_T, FLOAT_T} and ty not in want.split("|"):
                 probs.append(f"'{k}' must be written as {want} (astype gives {ty or 'no conversion'})")
+        # keys the format types as a list: the column is written as is, so every cell must be a list — in particular the
+        # declared default of the field, which fills the rows of charts built by conversion or from items
+        fields = _item_fields_of_list(ctx, LISTS[slot])
+        for k, (e, ty) in sorted(em.items()):
+            if allowed.get(k) == "list" and isinstance(e, ast.Name) and e.id in fields:
+                dflt = fields[e.id][1]
+                if not isinstance(dflt, list):
+                    probs.append(f"'{k}' is a list in the format, but the declared default of field '{e.id}' is {dflt!r}: "
+                                 f"rows filled with the default are written as '{k}: {'null' if dflt is None else dflt}'")
         if probs:
             insts.append(R.viol(rid, key, file, wfn.node.lineno, "; ".join(probs), construct=f"{slot}: " + "; ".join(probs)))
         else:
@@ -790,6 +808,25 @@ def rule_r8(ctx) -> List[R.Inst]:
     return insts
 
 
+def rule_r9(ctx) -> List[R.Inst]:
+    """charts that reach the writer from library code: to_yaml serialises *every* column of a list's frame, so the library
+    functions that build lists from frames must hand over the declared columns only (rule code of C19.R3 'projection' for
+    sv_normalize and of C08.R7 for the converters' empty() buffers)"""
+    from . import c19, c08
+    out = []
+    for i in c19.rule_r3(ctx):
+        if i.key == "projection":
+            i.rule, i.key = "C06.R9", "sv_normalize:" + i.key
+            if i.status == "violation":
+                i.msg += " — QuaSvList.to_yaml writes every column of the frame, so the extra columns become keys of SliderVelocities"
+            out.append(i)
+    for i in c08.rule_r7(ctx):
+        if "Qua" in i.key or i.status != "ok":
+            i.rule, i.key = "C06.R9", "empty:" + i.key
+            out.append(i)
+    return out
+
+
 def rule_dep(ctx):
     """obligations inherited from shared code reached through the call graph (sa/props/deps.py)"""
     from .deps import dep_insts
@@ -805,6 +842,7 @@ SPECS = [
     RuleSpec("C06.R8", rule_r8, 6, "A3", "the writers do not modify the chart they serialise"),
     RuleSpec("C06.R7", rule_r7, 2, "A1", "read_file / write_file pass the text through unchanged (no doubled line breaks)"),
     RuleSpec("C06.R6", rule_r6, 11, "A8", "defaults for omitted keys are applied before use and leave no NaN"),
+    RuleSpec("C06.R9", rule_r9, 3, "A7", "library producers of Quaver lists (sv_normalize, converters' empty buffers) hand the writer declared columns only"),
     RuleSpec("C06.D", rule_dep, 1, "M0", "rules of the shared code (timing engine, list classes, stacker) that the operations of this property reach"),
 ]
 
